@@ -738,3 +738,16 @@ func subT(a, b T) T {
 func simpleQuant(s string) bool {
 	return strings.Count(s, "(forall ") == 1 && !strings.Contains(s, "(exists ")
 }
+
+// ixT is the index of element i of a slice that starts at offset off of its backing array.
+// It is off+i, but written with the uninterpreted function "ix" (axiom: ix(o,i) = o+i) unless the
+// offset is a literal: quantifier triggers then contain (ix off j) and match the ground index terms
+// syntactically; with a bare (+ off j) the solver's reordering of sums makes triggers miss.
+func ixT(off, i T) T {
+	if _, ok := smallConstBig(off); ok {
+		return addT(off, i)
+	}
+	ix := declFun("ix", []string{SInt, SInt}, SInt)
+	addAxiom("ix definition", []string{ix}, fmt.Sprintf("(forall ((o Int) (i Int)) (! (= (%s o i) (+ o i)) :pattern ((%s o i))))", ix, ix))
+	return app(SInt, ix, off, i)
+}
